@@ -214,7 +214,7 @@ ENTRIES = {
              "reveal_plate and extract_screen_metadata CLIs. In addition reveal_plates, mask_screen, unmask_screen, Screen.set_observed and the observation-mask statements of Screen.__init__ are re-translated from /repo's source into Gallina on every run and C12_model_is_source_* prove the model equal to the translations. reveal_plate.main and extract_screen_metadata.main are re-translated too (C12_model_is_source_cli_*).",
         note="Trusted: Coq kernel, extraction, driver, harness. Observation values cross as float64 bit patterns. reveal_plates takes one screen and "
              "uses that screen's own plate ids. set_observed is outside the atomicity clause (it performs no plate check). Independent of sample "
-             "and treatment ids. Defect found in round 2 and repaired (fix fx5): the all-zero guard of reveal_plates looked at the UNION of the selected rows only, "
+             "and treatment ids. Defect found in round 2 and repaired (fix: 98b8779): the all-zero guard of reveal_plates looked at the UNION of the selected rows only, "
              "so an all-zero plate named together with a plate holding a non-zero value was revealed (reveal-zero-guard-is-joint); the code now tests every "
              "selected plate by itself, C12_reveal_refuses_zero_per_plate / C12_reveal_zero_guard_meaning / C12_reveal_ok_per_plate state the clause per plate "
              "at full strength, C12_reveal_refuses_zero_per_plate_refuted is the witness about the pre-repair variant, the harness judges it "
